@@ -45,6 +45,7 @@ from returns.maybe import Some
 
 import isla_formalizations.csv as csvf
 import c21_xml
+import c21_xmlns
 
 OBL_TRANS = "transcription Formal/Csv.v (CSV, colno_src, colno_*) <-> isla_formalizations/csv.py"
 OBL_EVAL = "correspondence Csv.colno_satb <-> evaluator.evaluate(CSV_COLNO_PROPERTY, tree, CSV_GRAMMAR)"
@@ -553,6 +554,13 @@ def run(run):
             import traceback
             broken.append({"obligation": "XML correspondence (harness/c21_xml.py) crashed",
                            "detail": traceback.format_exc()[-1500:]})
+        # ---- XML namespace / attribute rules: transcription + correspondence for Formal/XmlNs.v ----
+        try:
+            c21_xmlns.correspond(run, rng, thorough, seed_global, xml_solver_trees, broken, failing)
+        except Exception:  # noqa
+            import traceback
+            broken.append({"obligation": "XML namespace correspondence (harness/c21_xmlns.py) crashed",
+                           "detail": traceback.format_exc()[-1500:]})
 
         rest_f = (rest.LENGTH_UNDERLINE & rest.DEF_LINK_TARGETS & rest.NO_LINK_TARGET_REDEF
                   & rest.LIST_NUMBERING_CONSECUTIVE)
@@ -584,11 +592,14 @@ def run(run):
 
     # ---- classify ----
     known = [e for e in lib.known_findings("C21") if e.get("status") == "open"]
-    reported = set()
+    known += [e for e in c21_xmlns.local_findings() if e.get("key") not in {k.get("key") for k in known}]
+    reported, announced = set(), set()
     for f in sorted(failing, key=lambda d: len(d["text"])):
         ent = next((e for e in known if classify(f) == e.get("class")), None)
         if ent:
-            run.known(ent["what"])
+            if ent.get("key") not in announced:
+                announced.add(ent.get("key"))
+                run.known(ent["what"])
             continue
         key = (f["formalization"], f["why"][:14])
         if key in reported:
@@ -608,7 +619,7 @@ def run(run):
                           found_input=False)
     for e in known:   # replay recorded witnesses
         w = e.get("witness", {})
-        if w and replay_witness(w):
+        if w and e.get("key") not in announced and replay_witness(w):
             run.known(e["what"])
     if not proof_ok:
         run.violation({"kind": "proof obligation failed", "problems": run.proof_problems,
@@ -627,13 +638,19 @@ def run(run):
         "evaluator.evaluate on every run",
         "the independent notion of tag balance is the reader Xml.xml_balanced; tied on every run to a Python "
         "reference reader, which is cross-checked with xml.etree (expat) on every text of the grammar",
-        "XML namespace / attribute-uniqueness constraints, reST, simple TAR: NOT proved; failing-input search with "
-        "xml.etree, docutils, byte-level TAR reader",
+        "meaning of the XML namespace / no-redefinition constraints: match expressions as the tree prefixes "
+        "BindExpression.to_tree_prefix computes (diffed every run), inside = path-prefix, quantifier domains = all "
+        "nodes of the type below the domain node; tied to evaluator.evaluate on every run",
+        "the independent notions of prefix binding / attribute uniqueness are XmlNs.xml_ns_bound / xml_attrs_unique "
+        "over the reader XmlNs.xml_events; tied on every run to Python references cross-checked with expat",
+        "reST, simple TAR: NOT proved; failing-input search with docutils, byte-level TAR reader",
     ]
 
 
 def classify(f):
-    """class name of a known finding this failing output belongs to (none recorded so far)"""
+    """class name of the known finding this failing output belongs to (XML reserved names / expanded names)"""
+    if f.get("formalization") == "xml":
+        return f.get("class") or c21_xmlns.classify_text(f.get("text", ""))
     return None
 
 
@@ -641,6 +658,8 @@ def replay_witness(w):
     name, s = w.get("formalization"), w.get("text", "")
     if name == "csv":
         return not csv_equal_columns(s)[0]
+    if name == "xml" and w.get("all_constraints_hold"):
+        return c21_xmlns.replay_finding(s)
     if name == "xml":
         return check_xml(s) is not None or not c21_xml.py_xml_balanced(s)
     if name == "simple_tar":
